@@ -55,6 +55,8 @@ def templates(cfg):
     # (F67: assertion in the Ungroup branch of the SQL compiler); reported by a round-5 sub-agent
     T("typed_null_literals", lambda p, t: t >> p.mutate(x=p.lit(None, p.Float64()), y=p.lit(None, p.Float64()) + t.f, z=p.lit(None, p.Int64()), w=p.lit(None, p.String()), q=p.lit(None, p.Bool())))
     T("regroup_ungroup_after_summarize", lambda p, t: t >> p.group_by(t.a) >> p.summarize(m=t.b.sum()) >> p.group_by(p.C.a) >> p.ungroup() >> p.mutate(z=p.C.m + 1))
+    # F74 (found by the generator with VERIF_SEED=1, gen.1.9): an aggregate / cum_sum over a horizontal min / max on PostgreSQL
+    T("agg_over_horizontal", lambda p, t: t >> p.mutate(x=p.max(t.a, t.b).sum(), y=p.min(t.a, t.b).cum_sum(arrange=[t.a.nulls_last()])))
     T("float_literals", lambda p, t: t >> p.mutate(x=t.f + 1.5, y=t.f * -0.25, z=p.lit(2.0)))
     T("union_ops", lambda p, t: (t >> p.select(t.a, t.b)) >> p.union(t >> p.alias("u") >> p.select(p.C.b, p.C.a), distinct=True) >> p.arrange(p.C.a.nulls_last()))
     def self_join_alias(p, t):
